@@ -634,7 +634,8 @@ func c41runGen(r *vrun.Run, c c41genCase) {
 		}
 		for i := range ret {
 			if ret[i].Err() == nil {
-				fail(fmt.Sprintf("%s.Exec: failed transaction leaves Cmder %T without error", tn, ret[i]), "position %d of %d: Err()==nil although EXEC failed with %v (queued by %v)", i, n, err, c.Ops)
+				// observed, not judged: C41 does not say what a Cmder of a transaction that failed as a whole holds
+				r.Outcome(fmt.Sprintf("%s.Exec: failed transaction leaves Cmder %T without error (outside the statement)", tn, ret[i]))
 				break
 			}
 		}
@@ -1290,7 +1291,7 @@ func c41runCur(r *vrun.Run, c c41curCase) {
 	}
 	for i := range ret {
 		if ret[i].Err() == nil {
-			fail(fmt.Sprintf("TxPipeline.Exec: failed transaction leaves Cmder %T without error", ret[i]), "position %d of %d: Err()==nil although Exec returned %v", i, total, err)
+			r.Outcome(fmt.Sprintf("TxPipeline.Exec: failed transaction leaves Cmder %T without error (outside the statement)", ret[i]))
 			break
 		}
 		if ret[i].Err() == errPipelineNotExecuted {
